@@ -26,6 +26,23 @@ def mask (z : Z) : Nat :=
 def describe (z : Z) : String :=
   s!"{fmtSets (sets z)} c={count z} cu={count z} m={toHex (mask z)}"
 
+/-- parse the implementation's family listing `{1,2}{3}{}` (or `-`) back into a tree, to resynchronise after a DIFF -/
+def parseFamily (s : String) : Option Z :=
+  let w := (words s).headD "-"
+  if w == "-" then some .empty else
+  let parts := (w.splitOn "}").filter (· ≠ "")
+  (parts.mapM fun (p : String) =>
+    let body := (p.drop 1).toString
+    if body.isEmpty then some [] else (body.splitOn ",").mapM String.toNat?).map
+    fun ms => ms.foldl (fun acc m => union acc (fromSet m)) .empty
+
+/-- set the destination register; on disagreement adopt the implementation's family so that later
+cases (and the C07 dump judge) are judged on their own merits -/
+def setDest (st : List (Nat × Z)) (d : Nat) (z : Z) (impl : String) : List (Nat × Z) × String :=
+  let v := verdict (s!"{fmtSets (sets z)} c={count z} cu={count z} m={toHex (mask z)}") impl
+  let z' := if v == "ok" then z else (parseFamily impl).getD z
+  ((d, z') :: st.filter (·.1 ≠ d), v)
+
 def parseMember (w : String) : Option (List Nat) :=
   if w == "_" then some [] else (w.splitOn ",").mapM String.toNat?
 
@@ -107,7 +124,7 @@ def step (st : St) (line : String) : St × String :=
     match d.toNat?, ms.mapM parseMember with
     | some d, some ms =>
       let z := ms.foldl (fun acc m => union acc (fromSet m)) .empty
-      (st.set d z, verdict (describe z) impl)
+      (let (r, v) := setDest st.regs d z impl; ({ st with regs := r }, v))
     | _, _ => (st, "BADLINE")
   | ["base", d] => match d.toNat? with
     | some d => (st.set d .base, verdict (describe .base) impl) | none => (st, "BADLINE")
@@ -133,19 +150,20 @@ def step (st : St) (line : String) : St × String :=
     match d.toNat?, a.toNat?, b.toNat? with
     | some d, some a, some b =>
       if bop == "pwo" then
-        let z := pwo (st.get a) b; (st.set d z, verdict (describe z) impl)
+        let z := pwo (st.get a) b; (let (r, v) := setDest st.regs d z impl; ({ st with regs := r }, v))
       else
       let f? : Option (Z → Z → Z) := match bop with
         | "union" => some union | "inter" => some inter | "diff" => some diff
         | "product" => some product | _ => none
       (match f? with
-      | some f => let z := f (st.get a) (st.get b); (st.set d z, verdict (describe z) impl)
+      | some f => let z := f (st.get a) (st.get b); (let (r, v) := setDest st.regs d z impl; ({ st with regs := r }, v))
       | none => (st, "BADLINE"))
     | _, _, _ => (st, "BADLINE")
   | ["dump"] => (st, judgeDump st impl)
   | [] => (st, "")
   | _ => (st, "BADLINE")
 
+--! vmodel: zdd => Varpulis.Driver.ZddD.driver
 def driver : Prop' St := { init := {}, step := step }
 
 end Varpulis.Driver.ZddD
